@@ -16,14 +16,43 @@
 //!    `TSigVerifier::verify` (`reply-not-verifiable`), and every bit-flipped reply that reftsig
 //!    (response form, request MAC prepended) rejects must be rejected too (`forged-reply-accepted`);
 //!  * `valid-refused`: the genuine request at |offset| < fudge must take effect (sanity of the
-//!    harness and of the server: otherwise everything else is vacuous);
+//!    harness and of the server: otherwise everything else is vacuous); an authentic UPDATE whose
+//!    prerequisites do not hold (by `refupdate`) must be answered from the prerequisite section,
+//!    i.e. not REFUSED/NOTAUTH, and its (signed) reply goes through the reply clause as well;
+//!  * `leak` (non-interference reading of "returns no zone data"): the response to a request the
+//!    reference judges INVALID must not depend on the zone's content.
+//!    (a) direct: an invalid UPDATE is never answered NXDOMAIN / YXDOMAIN / YXRRSET / NXRRSET —
+//!        those rcodes can only come from evaluating the prerequisite section against zone data
+//!        (sig `rcode-<NAME>:<mutation class>`);
+//!    (b) differential: the same invalid bytes at the same clock go to a second server with the
+//!        same keys whose zone differs exactly in the RRset(s) the request's prerequisite names
+//!        (present/absent, equal/different value, so that the prerequisite's truth flips): rcode,
+//!        header, question and the three record sets must agree, response TSIG MAC/time ignored
+//!        (sig `differs:<what>:<mutation class>`). The authentic request is sent to both servers
+//!        too: it must tell them apart (counter `leak/pairs-distinguished-by-valid-request`),
+//!        otherwise the differential is vacuous;
 //!  * `panic`.
+//! Base requests vary what hickory's client helpers never produce: header bits RD/CD/AD/TC (and
+//! the reserved Z bit), EDNS OPT (version 0; payload sizes; DO) right before the TSIG, 0-2
+//! prerequisites of every RFC 2136 3.2 form in satisfied and unsatisfied variants (generated
+//! against the known zone content), 1-3 update RRs, an IXFR-style SOA in the authority section
+//! of AXFR queries. Every clause runs for every base request. A reply-clause alarm is attributed
+//! to the smallest responsible request feature by re-running the clause on twins of the request
+//! that carry no / one feature (sig suffix `:req=<feature>`).
 //! Don't-cares: |now - time| == fudge exactly (hickory's range is half-open, RFC not explicit);
 //! header-ID flips (covered by the original-ID field: the reference itself says valid);
 //! bits hickory's `Header`/`Record` model does not carry and that leave the parsed message equal
 //! are reported under their own region signature, never silently dropped (see report);
 //! ordinary queries produced by a flip of the opcode are not protected by TSIG: "returns zone
-//! data" is judged only on AXFR/IXFR responses, "zone changed" on everything.
+//! data" is judged only on AXFR/IXFR responses, "zone changed" on everything; for the same
+//! reason the `leak` clause skips mutants whose opcode became QUERY;
+//! a request with the reserved Z bit set: hickory re-encodes the header from its model before
+//! computing the digest, so it refuses the (reference-valid) request signed over the exact
+//! bytes — only-if direction is not concerned; counted under dontcare/z-request-refused. Such
+//! requests are signed by `reftsig` (hickory's client cannot produce them) and their replies are
+//! checked with `TSigner::verify_message_byte` + the time window (what `TSigVerifier` does);
+//! the leak clause applies the same same-parse exemption as only-if (hickory treats such a
+//! request as the authentic one).
 
 #[path = "../c12/reftsig.rs"]
 mod reftsig;
@@ -31,7 +60,10 @@ mod reftsig;
 mod refupdate;
 #[path = "../c12/zonekit.rs"]
 mod zonekit;
+mod basegen;
+mod leak;
 
+use std::collections::BTreeMap;
 use std::sync::Arc;
 
 use hickory_proto::op::Message;
@@ -39,6 +71,7 @@ use hickory_proto::rr::{TSigVerifier, TSigner};
 use hickory_server::zone_handler::{AxfrPolicy, Catalog};
 use serde_json::{json, Value};
 
+use basegen::{Spec, F_Z};
 use reftsig::{Alg, Key, Verdict};
 use refupdate::*;
 use vh::mon::{self, hex, unhex, Ctx, Reporter};
@@ -86,6 +119,44 @@ fn client_sign(unsigned: &[u8], key: &Key, time: u64) -> Result<(Vec<u8>, TSigVe
     let mut m = Message::from_vec(unsigned).map_err(|e| e.to_string())?;
     let v = m.finalize(&signer_of(key), time).map_err(|e| e.to_string())?.ok_or("no verifier")?;
     Ok((m.to_vec().map_err(|e| e.to_string())?, v))
+}
+
+/// The client's view of a reply. `Client`: hickory's `TSigVerifier` as returned by
+/// `Message::finalize`. `Raw`: for requests hickory's message model cannot express (reserved Z
+/// bit) the request is signed by `reftsig` and the reply goes through the two steps
+/// `TSigVerifier::verify` consists of (`TSigner::verify_message_byte` with the request MAC, then
+/// the request time inside the reply's fudge window).
+enum Verifier {
+    Client(TSigVerifier),
+    Raw { signer: TSigner, req_mac: Vec<u8>, time: u64 },
+}
+
+impl Verifier {
+    fn verify(&mut self, reply: &[u8]) -> Result<(), String> {
+        match self {
+            Verifier::Client(v) => v.verify(reply).map(|_| ()).map_err(|e| e.to_string()),
+            Verifier::Raw { signer, req_mac, time } => {
+                let (_, _, range) = signer.verify_message_byte(reply, Some(req_mac), true).map_err(|e| e.to_string())?;
+                if !range.contains(time) {
+                    return Err("tsig validation error: outdated response".into());
+                }
+                Message::from_vec(reply).map(|_| ()).map_err(|e| e.to_string())
+            }
+        }
+    }
+}
+
+/// the authentic form of a base request: (signed bytes, client-side verifier)
+fn sign_base(unsigned: &[u8], key: &Key, time: u64) -> Result<(Vec<u8>, Verifier), String> {
+    let flags = refwire::read_header(unsigned)?.flags;
+    if flags & F_Z != 0 {
+        let signed = reftsig::sign_request(unsigned, key, time, FUDGE as u16);
+        let req_mac = reftsig::locate(&signed)?.mac;
+        Ok((signed, Verifier::Raw { signer: signer_of(key), req_mac, time }))
+    } else {
+        let (signed, v) = client_sign(unsigned, key, time)?;
+        Ok((signed, Verifier::Client(v)))
+    }
 }
 
 #[derive(Debug)]
@@ -222,7 +293,8 @@ fn mutants(rng: &mut Rng, signed: &[u8], keys: &[Key], key: &Key, time: u64, uns
         let ar = u16::from_be_bytes([two[10], two[11]]) + 1;
         two[10..12].copy_from_slice(&ar.to_be_bytes());
         push("two-tsigs", two);
-        // TSIG moved into the authority section (AR-1, NS+1)
+        // TSIG moved into the authority section (AR-1, NS+1); only meaningful when it is the only
+        // additional record (otherwise the section boundary does not fall in front of it)
         let mut moved = signed.to_vec();
         let ns = u16::from_be_bytes([moved[8], moved[9]]) + 1;
         let ar = u16::from_be_bytes([moved[10], moved[11]]) - 1;
@@ -244,6 +316,29 @@ fn mutants(rng: &mut Rng, signed: &[u8], keys: &[Key], key: &Key, time: u64, uns
             b
         });
         push("extra-record-before-tsig", reftsig::append_tsig(&notlast, &t.name, &t.alg_name, t.time, t.fudge, &t.mac, t.orig_id, t.error, &t.other));
+        // an OPT record placed behind the TSIG (RFC 6891 6.1.1: OPT placement never overrides
+        // "TSIG is last"): appended when the request has none, moved when it has one
+        push("opt-after-tsig", {
+            let opt_rec = refwire::walk(&body).ok().and_then(|w| w.sections[2].iter().find(|r| r.rtype == basegen::T_OPT).map(|r| (r.start, r.end)));
+            let mut b;
+            match opt_rec {
+                Some((s, e)) if e == body.len() => {
+                    // body = ... OPT ; result = ... TSIG OPT (names in both are uncompressed or point backwards into the untouched prefix)
+                    b = body[..s].to_vec();
+                    b.extend_from_slice(&signed[t.start..]);
+                    b.extend_from_slice(&body[s..e]);
+                    let ar = u16::from_be_bytes([body[10], body[11]]) + 1;
+                    b[10..12].copy_from_slice(&ar.to_be_bytes());
+                }
+                _ => {
+                    b = signed.to_vec();
+                    refwire::put_record(&mut b, &[], basegen::T_OPT, 1232, 0, &[]);
+                    let ar = u16::from_be_bytes([b[10], b[11]]) + 1;
+                    b[10..12].copy_from_slice(&ar.to_be_bytes());
+                }
+            }
+            b
+        });
         for n in [1usize, 12] {
             let mut b = signed.to_vec();
             b.extend(std::iter::repeat(0u8).take(n));
@@ -301,18 +396,31 @@ struct Checker<'a> {
     rep: &'a mut Reporter,
 }
 
-fn case_json(w: &World, kind: &str, req_kind: &str, unsigned: &[u8], key_idx: usize, time: u64, bytes: &[u8], now: u64, class: &str) -> Value {
-    json!({
+fn case_json(w: &World, wb: Option<&World>, kind: &str, req_kind: &str, unsigned: &[u8], key_idx: usize, time: u64, bytes: &[u8], now: u64, class: &str) -> Value {
+    let mut c = json!({
         "kind": kind, "request": req_kind, "zone": zone_json(&w.zone0), "zone_text": zone_lines(&w.zone0),
         "keys": w.env.keys.iter().map(|k| json!({"name": show(&k.name), "alg": k.alg.name(), "secret": hex(&k.secret)})).collect::<Vec<_>>(),
         "unsigned_request": hex(unsigned), "signing_key": key_idx, "signed_at": time,
         "bytes": hex(bytes), "server_clock": now, "mutation": class,
-    })
+    });
+    if let Ok(s) = Spec::parse(unsigned) {
+        c["base"] = s.json();
+    }
+    if let Some(b) = wb {
+        // the twin server of the leak clause (same keys, same clock)
+        c["zone_b"] = zone_json(&b.zone0);
+        c["zone_b_text"] = json!(zone_lines(&b.zone0));
+    }
+    c
 }
 
+type MkCase<'x> = &'x dyn Fn(&World, Option<&World>, &[u8], u64, &str) -> Value;
+
 impl<'a> Checker<'a> {
-    /// ONLY-IF clause on one request
-    fn judge_request(&mut self, w: &mut World, m: &Mutant, genuine: &[u8], now: u64, mk_case: &dyn Fn(&World, &[u8], u64, &str) -> Value) {
+    /// ONLY-IF and LEAK clauses on one request. `wb`: the twin server (zone differs exactly in
+    /// what the base request's prerequisite names), `has_prereq`: the base request is an UPDATE
+    /// with a prerequisite section.
+    fn judge_request(&mut self, w: &mut World, mut wb: Option<&mut World>, m: &Mutant, genuine: &[u8], now: u64, has_prereq: bool, mk_case: MkCase) {
         let keys = w.env.keys.clone();
         let verdict = reftsig::judge_request(&m.bytes, &keys, now);
         let o = observe(w, &m.bytes, now);
@@ -328,7 +436,7 @@ impl<'a> Checker<'a> {
             self.rep.sample(|| json!({"mutation": m.class, "server_clock": now, "bytes": hex(&m.bytes), "reference_verdict": vtxt, "zone_changed": zc, "axfr_data": ax}));
         }
         if let Some(p) = &o.panic {
-            self.rep.violation("panic", &format!("{}:{}", p.site(), base_class), mk_case(w, &m.bytes, now, &m.class), json!("no panic"), json!({"message": p.message, "location": p.location}));
+            self.rep.violation("panic", &format!("{}:{}", p.site(), base_class), mk_case(w, wb.as_deref(), &m.bytes, now, &m.class), json!("no panic"), json!({"message": p.message, "location": p.location}));
             return;
         }
         let effect = o.zone_changed || o.axfr_data;
@@ -349,7 +457,8 @@ impl<'a> Checker<'a> {
                 // the exemption only covers invalidity that stems from the edit: at this server clock
                 // the genuine request itself must be acceptable (otherwise the request is stale, and
                 // taking effect is exactly what the statement forbids)
-                if effect && same_parse(&m.bytes, genuine) && !matches!(reftsig::judge_request(genuine, &keys, now), Verdict::Invalid(_)) {
+                let exempt = same_parse(&m.bytes, genuine) && !matches!(reftsig::judge_request(genuine, &keys, now), Verdict::Invalid(_));
+                if effect && exempt {
                     // don't-care: the edit touches nothing hickory's message model carries (reserved
                     // header bit, bytes after the end of the message): what is signed and what is
                     // parsed are unchanged
@@ -359,42 +468,214 @@ impl<'a> Checker<'a> {
                     self.rep.violation(
                         "only-if",
                         &format!("{}:{}", positional(&m.class), symptom),
-                        mk_case(w, &m.bytes, now, &m.class),
+                        mk_case(w, wb.as_deref(), &m.bytes, now, &m.class),
                         json!({"reference": format!("invalid: {why}"), "effect": "none"}),
                         json!({"zone_changed": o.zone_changed, "axfr_records_returned": o.axfr_data, "rcode": o.rcode.map(rcode_name)}),
                     );
                 } else {
                     self.rep.count("outcome/invalid-rejected");
                 }
+                self.judge_leak(w, wb.as_deref_mut(), m, &o, now, has_prereq, exempt, why, mk_case);
+            }
+        }
+    }
+
+    /// LEAK clause (non-interference) for a request the reference judged invalid
+    fn judge_leak(&mut self, w: &mut World, wb: Option<&mut World>, m: &Mutant, o: &Obs, now: u64, has_prereq: bool, exempt: bool, why: &str, mk_case: MkCase) {
+        if o.decoder_refused {
+            // never reached a zone handler; the decoder has no access to the zone
+            return;
+        }
+        let Ok(h) = refwire::read_header(&m.bytes) else { return };
+        if h.opcode() == 0 {
+            // an ordinary query (the edit rewrote the opcode): not protected by TSIG
+            self.rep.count("leak/skipped-opcode-query");
+            return;
+        }
+        if exempt {
+            // hickory takes these bytes for the authentic request (see only-if don't-care)
+            self.rep.count("leak/skipped-same-parse");
+            return;
+        }
+        let is_update = h.opcode() == 5 && !h.qr();
+        if has_prereq && is_update {
+            self.rep.count("leak/invalid_requests_with_prereq_judged");
+        }
+        self.rep.eval();
+        // (a) direct: a prerequisite-evaluation result can only come from looking at zone data
+        if let (true, Some(rc)) = (is_update, o.rcode) {
+            if matches!(rc, NXDOMAIN | YXDOMAIN | YXRRSET | NXRRSET) {
+                self.rep.violation(
+                    "leak",
+                    &format!("rcode-{}:{}", rcode_name(rc), positional(&m.class)),
+                    mk_case(w, wb.as_deref(), &m.bytes, now, &m.class),
+                    json!({"reference": format!("invalid: {why}"), "rcode": "one that does not depend on zone content (REFUSED / NOTAUTH / FORMERR ...)"}),
+                    json!({"rcode": rcode_name(rc), "replies": o.replies.iter().map(|r| hex(r)).collect::<Vec<_>>()}),
+                );
+            } else {
+                self.rep.count("leak/rcode-independent-of-zone");
+            }
+        }
+        // (b) differential: same bytes, same clock, same keys, zone differs in what the prerequisite names
+        let Some(wb) = wb else { return };
+        let ob = observe(wb, &m.bytes, now);
+        self.rep.count("leak/differential_pairs");
+        if let Some(p) = &ob.panic {
+            self.rep.violation("panic", &format!("{}:{}", p.site(), m.class.split('@').next().unwrap_or("")), mk_case(w, Some(wb), &m.bytes, now, &m.class), json!("no panic"), json!({"message": p.message, "location": p.location, "server": "twin"}));
+            return;
+        }
+        let diff = if ob.zone_changed {
+            Some(("zone-changed".to_string(), json!({"twin_zone_changed": true})))
+        } else if ob.decoder_refused {
+            Some(("reply-count".to_string(), json!({"twin": "decoder refused"})))
+        } else {
+            leak::first_difference(&o.replies, &ob.replies)
+        };
+        match diff {
+            None => self.rep.count("leak/responses-identical"),
+            Some((what, detail)) => {
+                self.rep.violation(
+                    "leak",
+                    &format!("differs:{}:{}", what, positional(&m.class)),
+                    mk_case(w, Some(wb), &m.bytes, now, &m.class),
+                    json!({"reference": format!("invalid: {why}"), "responses": "identical on both servers (TSIG MAC/time ignored)"}),
+                    json!({"differs": what, "detail": detail, "rcode_a": o.rcode.map(rcode_name), "rcode_b": ob.rcode.map(rcode_name)}),
+                );
             }
         }
     }
 }
 
-/// reply clause for the genuine request
-fn check_reply(rep: &mut Reporter, w: &mut World, req_kind: &str, unsigned: &[u8], key_idx: usize, time: u64, now: u64, flips: bool) {
+// ---------------------------------------------------------------------------------------------
+// genuine request + reply clause
+
+#[derive(Clone, PartialEq)]
+enum Flips {
+    None,
+    All,
+    /// only the bits of one region of the reply (twin probes)
+    Region(String),
+}
+
+struct Finding {
+    rule: String,
+    sig: String,
+    case: Value,
+    expected: Value,
+    observed: Value,
+}
+
+#[derive(Default)]
+struct Probe {
+    findings: Vec<Finding>,
+    counts: BTreeMap<String, u64>,
+    evals: u64,
+    /// rcode of the reply to the genuine request
+    rcode: Option<u8>,
+    inconclusive: Option<String>,
+}
+
+impl Probe {
+    fn count(&mut self, name: &str) {
+        *self.counts.entry(name.to_string()).or_insert(0) += 1;
+    }
+    fn find(&mut self, rule: &str, sig: String, case: Value, expected: Value, observed: Value) {
+        self.findings.push(Finding { rule: rule.to_string(), sig, case, expected, observed });
+    }
+}
+
+/// what the reference models say the authentic request does
+enum Expect {
+    /// zone changes / zone data is transferred
+    Effect,
+    /// authentic UPDATE whose prerequisites do not hold: answered from the prerequisite section
+    PrereqFails,
+    /// prescan error or a no-op update: C12's business
+    DontCare,
+}
+
+fn expectation(spec: &Spec, zone: &Zone) -> Expect {
+    if !spec.is_update() {
+        return Expect::Effect;
+    }
+    let outs: Vec<Outcome> = VARIANTS.iter().map(|v| process(zone, &spec.pre, &spec.upd, *v)).collect();
+    if outs.iter().all(|o| o.stage == "ok" && o.changed) {
+        Expect::Effect
+    } else if outs.iter().all(|o| o.stage == "prereq") {
+        Expect::PrereqFails
+    } else {
+        Expect::DontCare
+    }
+}
+
+/// Send the authentic form of `unsigned` and run the reply clause; nothing is reported here.
+fn reply_probe(w: &mut World, unsigned: &[u8], key_idx: usize, time: u64, now: u64, flips: &Flips) -> Probe {
+    let mut p = Probe::default();
     let key = w.env.keys[key_idx].clone();
-    let Ok((signed, mut verifier)) = client_sign(unsigned, &key, time) else {
-        rep.inconclusive("client signer failed");
-        return;
+    let Ok(spec) = Spec::parse(unsigned) else {
+        p.inconclusive = Some("unsigned request does not parse".into());
+        return p;
     };
+    let req_kind = spec.kind.clone();
+    let Ok((signed, mut verifier)) = sign_base(unsigned, &key, time) else {
+        p.inconclusive = Some("client signer failed".into());
+        return p;
+    };
+    // hickory's client re-encodes the request from its model: the shape must survive that
+    match reftsig::locate(&signed).map(|t| reftsig::strip(&signed, &t)).and_then(|b| Spec::parse(&b)) {
+        Ok(s2) if (s2.kind == spec.kind, s2.id, s2.flags, &s2.opt, s2.pre.len(), s2.upd.len(), s2.auth.len()) == (true, spec.id, spec.flags, &spec.opt, spec.pre.len(), spec.upd.len(), spec.auth.len()) => {}
+        other => {
+            p.inconclusive = Some(format!("client signer changed the shape of the request: {:?}", other.map(|s| s.json())));
+            return p;
+        }
+    }
     let o = observe(w, &signed, now);
-    rep.eval();
+    p.evals += 1;
+    p.rcode = o.rcode;
     let off = now as i64 - time as i64;
-    let mk = |w: &World, bytes: &[u8], class: &str, kind: &str| case_json(w, kind, req_kind, unsigned, key_idx, time, bytes, now, class);
-    if let Some(p) = &o.panic {
-        rep.violation("panic", &format!("{}:genuine", p.site()), mk(w, &signed, "genuine", "request"), json!("no panic"), json!({"message": p.message, "location": p.location}));
-        return;
+    let mk = |w: &World, bytes: &[u8], class: &str, kind: &str| case_json(w, None, kind, &req_kind, unsigned, key_idx, time, bytes, now, class);
+    if let Some(pn) = &o.panic {
+        p.find("panic", format!("{}:genuine", pn.site()), mk(w, &signed, "genuine", "request"), json!("no panic"), json!({"message": pn.message, "location": pn.location}));
+        return p;
     }
     let effect = o.zone_changed || o.axfr_data;
-    if !effect {
-        rep.violation("valid-refused", &format!("{req_kind}:offset{off:+}"), mk(w, &signed, "genuine", "request"), json!("request takes effect"), json!({"rcode": o.rcode.map(rcode_name)}));
-        return;
+    let zbit = spec.flags & F_Z != 0;
+    match expectation(&spec, &w.zone0) {
+        Expect::Effect => {
+            if !effect && zbit {
+                // reference-valid, refused by hickory (digest over the re-encoded header): don't-care
+                p.count("dontcare/z-request-refused");
+                return p;
+            }
+            if !effect {
+                p.find("valid-refused", format!("{req_kind}:offset{off:+}"), mk(w, &signed, "genuine", "request"), json!("request takes effect"), json!({"rcode": o.rcode.map(rcode_name)}));
+                return p;
+            }
+            p.count(&format!("accepted/{req_kind}"));
+        }
+        Expect::PrereqFails => {
+            if matches!(o.rcode, Some(REFUSED) | Some(NOTAUTH) | None) {
+                if zbit {
+                    p.count("dontcare/z-request-refused");
+                    return p;
+                }
+                p.find("valid-refused", format!("{req_kind}:offset{off:+}"), mk(w, &signed, "genuine", "request"), json!("authentic request: answered from the prerequisite section"), json!({"rcode": o.rcode.map(rcode_name)}));
+                return p;
+            }
+            // rcode / no effect are C12's business
+            p.count(if effect { "authentic/prereq-fails-by-reference-but-took-effect" } else { "authentic/prereq-failed-no-effect" });
+        }
+        Expect::DontCare => {
+            if matches!(o.rcode, Some(REFUSED) | Some(NOTAUTH) | None) && !effect {
+                p.count("dontcare/authentic-noop-or-prescan-refused");
+                return p;
+            }
+            p.count("authentic/noop-or-prescan-error");
+        }
     }
-    rep.count(&format!("accepted/{req_kind}"));
     let Some(reply) = o.replies.first().cloned() else {
-        rep.violation("reply", &format!("no-reply:{req_kind}"), mk(w, &signed, "genuine", "request"), json!("one reply"), json!(0));
-        return;
+        p.find("reply", format!("no-reply:{req_kind}"), mk(w, &signed, "genuine", "request"), json!("one reply"), json!(0));
+        return p;
     };
     // the request MAC, from the bytes
     let req_mac = reftsig::locate(&signed).map(|t| t.mac).unwrap_or_default();
@@ -406,56 +687,123 @@ fn check_reply(rep: &mut Reporter, w: &mut World, req_kind: &str, unsigned: &[u8
     };
     let rv = ref_reply(&reply);
     match mon::catch(|| verifier.verify(&reply)) {
-        Ok(Ok(_)) => rep.count("reply/verified"),
-        Ok(Err(e)) => {
-            rep.violation("reply", &format!("reply-not-verifiable:{req_kind}:offset{off:+}"), mk(w, &signed, "genuine", "request"), json!({"client_verifier": "Ok", "reftsig_on_reply": format!("{rv:?}")}), json!({"error": e.to_string(), "reply": hex(&reply)}));
-            return;
+        Ok(Ok(_)) => {
+            p.count("reply/verified");
+            for c in spec.classes() {
+                p.count(&format!("reply/verified/{c}"));
+            }
+            p.count(&format!("reply/verified/rcode-{}", o.rcode.map(rcode_name).unwrap_or("none")));
         }
-        Err(p) => {
-            rep.violation("panic", &format!("{}:verify-genuine-reply", p.site()), mk(w, &signed, "genuine", "request"), json!("no panic"), json!({"message": p.message, "location": p.location}));
-            return;
+        Ok(Err(e)) => {
+            p.find("reply", format!("reply-not-verifiable:{req_kind}:offset{off:+}"), mk(w, &signed, "genuine", "request"), json!({"client_verifier": "Ok", "reftsig_on_reply": format!("{rv:?}")}), json!({"error": e, "reply": hex(&reply)}));
+            return p;
+        }
+        Err(pn) => {
+            p.find("panic", format!("{}:verify-genuine-reply", pn.site()), mk(w, &signed, "genuine", "request"), json!("no panic"), json!({"message": pn.message, "location": pn.location}));
+            return p;
         }
     }
     if !matches!(rv, Verdict::Valid | Verdict::Boundary) {
         // hickory's own verifier accepted what the reference rejects: the server signed something
         // else than RFC 8945 response form
-        rep.violation("reply", &format!("reply-not-rfc-form:{req_kind}"), mk(w, &signed, "genuine", "request"), json!("reftsig accepts the genuine reply"), json!({"reftsig": format!("{rv:?}"), "reply": hex(&reply)}));
-        return;
+        p.find("reply", format!("reply-not-rfc-form:{req_kind}"), mk(w, &signed, "genuine", "request"), json!("reftsig accepts the genuine reply"), json!({"reftsig": format!("{rv:?}"), "reply": hex(&reply)}));
+        return p;
     }
-    if !flips {
-        return;
+    if *flips == Flips::None {
+        return p;
     }
     let regs = reftsig::regions(&reply);
     for pos in 0..reply.len() {
+        let region = reftsig::region_of(&regs, pos);
+        if let Flips::Region(only) = flips {
+            if *only != region {
+                continue;
+            }
+        }
         for bit in 0..8 {
             let mut r = reply.clone();
             r[pos] ^= 1 << bit;
             let v = ref_reply(&r);
-            rep.eval();
-            rep.count("reply/flips");
+            p.evals += 1;
+            p.count("reply/flips");
             if matches!(v, Verdict::Invalid(_)) {
                 // fresh verifier (it is stateful)
-                let Ok((_, mut ver)) = client_sign(unsigned, &key, time) else { continue };
-                let region = reftsig::region_of(&regs, pos);
+                let Ok((_, mut ver)) = sign_base(unsigned, &key, time) else { continue };
                 match mon::catch(|| ver.verify(&r).is_ok()) {
-                    Ok(false) => rep.count("reply/forged-rejected"),
-                    Ok(true) if same_parse(&r, &reply) => rep.count(&format!("dontcare/same-parse/reply-bitflip@{region}")),
+                    Ok(false) => p.count("reply/forged-rejected"),
+                    Ok(true) if same_parse(&r, &reply) => p.count(&format!("dontcare/same-parse/reply-bitflip@{region}")),
                     Ok(true) => {
                         let mut c = mk(w, &signed, &format!("reply-bitflip@{region}"), "reply");
                         c["reply"] = json!(hex(&r));
-                        rep.violation("reply", &format!("forged-reply-accepted:byte-edit@{region}"), c, json!({"reftsig": format!("{v:?}")}), json!("TSigVerifier::verify returned Ok"));
+                        p.find("reply", format!("forged-reply-accepted:byte-edit@{region}"), c, json!({"reftsig": format!("{v:?}")}), json!("TSigVerifier::verify returned Ok"));
                     }
-                    Err(p) => {
+                    Err(pn) => {
                         let mut c = mk(w, &signed, &format!("reply-bitflip@{region}"), "reply");
                         c["reply"] = json!(hex(&r));
-                        rep.violation("panic", &format!("{}:verify-flipped-reply@{region}", p.site()), c, json!("no panic"), json!({"message": p.message, "location": p.location}));
+                        p.find("panic", format!("{}:verify-flipped-reply@{region}", pn.site()), c, json!("no panic"), json!({"message": pn.message, "location": pn.location}));
                     }
                 }
             } else {
-                rep.count("reply/flip-still-valid-per-reference");
+                p.count("reply/flip-still-valid-per-reference");
             }
         }
     }
+    p
+}
+
+/// (rule, sig, feature set) -> responsible feature(s)
+type BlameCache = BTreeMap<(String, String, String), String>;
+
+/// Smallest request feature that reproduces the alarm (rule, sig): none (the default-shaped twin
+/// raises it too), one single feature, or the whole combination.
+fn blame(cache: &mut BlameCache, w: &mut World, spec: &Spec, key_idx: usize, time: u64, now: u64, rule: &str, sig: &str) -> String {
+    let feats = spec.features();
+    if feats.is_empty() {
+        return String::new();
+    }
+    let ck = (rule.to_string(), sig.to_string(), feats.join("+"));
+    if let Some(b) = cache.get(&ck) {
+        return b.clone();
+    }
+    let flips = match sig.split_once('@') {
+        Some((head, region)) if head.starts_with("forged-reply-accepted") || head.contains("verify-flipped-reply") => Flips::Region(region.to_string()),
+        _ => Flips::None,
+    };
+    let mut raised = |keep: &[&str]| -> bool {
+        let twin = spec.only(keep).wire();
+        reply_probe(w, &twin, key_idx, time, now, &flips).findings.iter().any(|f| f.rule == rule && f.sig == sig)
+    };
+    let b = if raised(&[]) {
+        String::new()
+    } else if let Some(f) = feats.iter().find(|f| raised(&[**f])) {
+        f.to_string()
+    } else {
+        feats.join("+")
+    };
+    cache.insert(ck, b.clone());
+    b
+}
+
+/// reply clause for the genuine request; returns the rcode of the reply
+fn check_reply(rep: &mut Reporter, cache: &mut BlameCache, w: &mut World, unsigned: &[u8], key_idx: usize, time: u64, now: u64, flips: bool) -> Option<u8> {
+    let p = reply_probe(w, unsigned, key_idx, time, now, &if flips { Flips::All } else { Flips::None });
+    rep.evals(p.evals);
+    for (k, n) in &p.counts {
+        rep.add(k, *n);
+    }
+    if let Some(r) = &p.inconclusive {
+        rep.inconclusive(r);
+    }
+    let spec = Spec::parse(unsigned).ok();
+    for f in p.findings {
+        let b = match &spec {
+            Some(s) => blame(cache, w, s, key_idx, time, now, &f.rule, &f.sig),
+            None => String::new(),
+        };
+        let sig = if b.is_empty() { f.sig.clone() } else { format!("{}:req={}", f.sig, b) };
+        rep.violation(&f.rule, &sig, f.case, f.expected, f.observed);
+    }
+    p.rcode
 }
 
 fn gen_keys(rng: &mut Rng) -> Vec<Key> {
@@ -469,23 +817,15 @@ fn gen_keys(rng: &mut Rng) -> Vec<Key> {
         .collect()
 }
 
-fn unsigned_request(kind: &str, id: u16, n: u64) -> Vec<u8> {
-    if kind == "update" {
-        let txt = format!("c13-{n}");
-        let m = UpdMsg { pre: vec![], upd: vec![Rr { owner: lbl("u.z."), rtype: T_TXT, class: C_IN, ttl: 60, rdata: rd_txt(&[&txt]) }] };
-        update_wire(id, &m)
-    } else {
-        query_wire(id, &apex(), T_AXFR)
-    }
-}
-
 fn main() {
     let ctx = Ctx::from_args("C13");
     mon::install_panic_monitor();
     let mut rep = Reporter::new(&ctx);
     let tag = if ctx.replay.is_some() { "replay".to_string() } else { format!("s{}", ctx.shard) };
     let root = scratch_root("c13");
-    let dir = root.join(tag);
+    let dir = root.join(&tag);
+    let dir_b = root.join(format!("{tag}-twin"));
+    let mut cache = BlameCache::new();
 
     if let Some(case) = ctx.replay_case() {
         let c = &case["case"];
@@ -494,7 +834,9 @@ fn main() {
             .as_array()
             .map(|a| a.iter().map(|k| Key { name: lbl(k["name"].as_str().unwrap_or("k.")), alg: match k["alg"].as_str().unwrap_or("") { "hmac-sha384" => Alg::Sha384, "hmac-sha512" => Alg::Sha512, _ => Alg::Sha256 }, secret: unhex(k["secret"].as_str().unwrap_or("")) }).collect())
             .unwrap_or_default();
-        let mut w = World::new(dir.clone(), keys, zone0).expect("world");
+        let mut w = World::new(dir.clone(), keys.clone(), zone0).expect("world");
+        // the twin server of the leak clause, when the witness carries one
+        let mut wb = if c["zone_b"].is_object() { Some(World::new(dir_b.clone(), keys, zone_from_json(&c["zone_b"])).expect("twin world")) } else { None };
         let unsigned = unhex(c["unsigned_request"].as_str().unwrap_or(""));
         let key_idx = c["signing_key"].as_u64().unwrap_or(0) as usize;
         let time = c["signed_at"].as_u64().unwrap_or(T0);
@@ -502,16 +844,20 @@ fn main() {
         let req_kind = c["request"].as_str().unwrap_or("update").to_string();
         let class = c["mutation"].as_str().unwrap_or("").to_string();
         if c["kind"] == "reply" || class == "genuine" {
-            check_reply(&mut rep, &mut w, &req_kind, &unsigned, key_idx, time, now, true);
+            check_reply(&mut rep, &mut cache, &mut w, &unsigned, key_idx, time, now, true);
         } else {
             let bytes = unhex(c["bytes"].as_str().unwrap_or(""));
             let mut ck = Checker { rep: &mut rep };
             let u2 = unsigned.clone();
             let rk = req_kind.clone();
-            let genuine = client_sign(&unsigned, &w.env.keys[key_idx].clone(), time).map(|x| x.0).unwrap_or_default();
-            ck.judge_request(&mut w, &Mutant { class, bytes }, &genuine, now, &move |w, b, now, class| case_json(w, "request", &rk, &u2, key_idx, time, b, now, class));
+            let has_prereq = Spec::parse(&unsigned).map(|s| s.is_update() && !s.pre.is_empty()).unwrap_or(false);
+            let genuine = sign_base(&unsigned, &w.env.keys[key_idx].clone(), time).map(|x| x.0).unwrap_or_default();
+            ck.judge_request(&mut w, wb.as_mut(), &Mutant { class, bytes }, &genuine, now, has_prereq, &move |w, wb, b, now, class| case_json(w, wb, "request", &rk, &u2, key_idx, time, b, now, class));
         }
         w.env.cleanup();
+        if let Some(b) = &wb {
+            b.env.cleanup();
+        }
         let _ = std::fs::remove_dir_all(&root);
         rep.replay_finish();
     }
@@ -521,9 +867,10 @@ fn main() {
     rep.must("reply/verified", 200);
     rep.must("reply/forged-rejected", 50000);
     rep.must("outcome/invalid-rejected", 100000);
-    for c in ["bitflip", "byteset", "count-edit", "tsig-key-name:unknown", "tsig-algorithm:other-supported", "tsig-time", "tsig-fudge", "tsig-mac:truncated-half", "tsig-mac:extended", "tsig-original-id", "tsig-error", "tsig-other-data", "record-after-tsig", "two-tsigs", "tsig-not-last", "trailing-bytes", "key:same-name-other-secret", "key:other-name-same-secret", "key:algorithm-field-only", "unsigned", "clock-offset"] {
+    for c in ["bitflip", "byteset", "count-edit", "tsig-key-name:unknown", "tsig-algorithm:other-supported", "tsig-time", "tsig-fudge", "tsig-mac:truncated-half", "tsig-mac:extended", "tsig-original-id", "tsig-error", "tsig-other-data", "record-after-tsig", "two-tsigs", "tsig-not-last", "opt-after-tsig", "trailing-bytes", "key:same-name-other-secret", "key:other-name-same-secret", "key:algorithm-field-only", "unsigned", "clock-offset"] {
         rep.must(&format!("mutation/{c}"), 50);
     }
+    // MUSTS-NEW
 
     let mut rng = ctx.rng("base");
     let n_base = ctx.budget(320, 6000);
@@ -533,6 +880,15 @@ fn main() {
         let mut zone0 = gen_zone(&mut r);
         zone0.sets.remove(&(apex(), T_SOA));
         zone0.insert(&apex(), T_SOA, rd_soa("ns1.z.", "h.z.", r.range(1, 100_000) as u32, 3600, 600, 86400, 300), 300);
+        let req_kind = if (i + ctx.shard) % 2 == 0 { "update" } else { "axfr" };
+        let key_idx = r.usize_below(keys.len());
+        let key = keys[key_idx].clone();
+        let time = T0 + r.range(0, 1_000_000);
+        // shape of the base request (own stream: the zone/key/time draws above stay as they were)
+        let mut rs = r.fork();
+        let base = basegen::gen_base(&mut rs, req_kind, &zone0, i * 16 + ctx.shard, i / 2 + ctx.shard * 3);
+        let spec = &base.spec;
+        let unsigned = spec.wire();
         let mut w = match World::new(dir.clone(), keys.clone(), zone0) {
             Ok(w) => w,
             Err(e) => {
@@ -540,38 +896,77 @@ fn main() {
                 continue;
             }
         };
-        let req_kind = if (i + ctx.shard) % 2 == 0 { "update" } else { "axfr" };
-        let key_idx = r.usize_below(keys.len());
-        let key = keys[key_idx].clone();
-        let time = T0 + r.range(0, 1_000_000);
-        let unsigned = unsigned_request(req_kind, r.u16().max(2), i * 16 + ctx.shard);
+        let mut wb = match &base.zone_b {
+            Some(zb) => match World::new(dir_b.clone(), keys.clone(), zb.clone()) {
+                Ok(w) => Some(w),
+                Err(e) => {
+                    rep.inconclusive(&format!("twin world: {e}"));
+                    None
+                }
+            },
+            None => None,
+        };
         rep.count("base_requests");
+        rep.count(&format!("base/{req_kind}"));
+        for c in spec.classes() {
+            rep.count(&format!("base/flag/{c}"));
+        }
+        if spec.is_update() {
+            rep.count(&format!("base/prereq-rrs/{}", spec.pre.len()));
+            rep.count(&format!("base/update-rrs/{}", spec.upd.len()));
+            for (p, toggled) in &base.prereqs {
+                rep.count(&format!("base/{}/{}/{}", if *toggled { "prereq" } else { "prereq-extra" }, p.form, if p.satisfied { "satisfied" } else { "unsatisfied" }));
+            }
+            rep.count(if prerequisites(&w.zone0, &spec.pre).is_empty() { "base/prereq-section/holds" } else { "base/prereq-section/fails" });
+        } else {
+            rep.count(if spec.auth.is_empty() { "base/axfr/no-authority" } else { "base/axfr/ixfr-style-authority" });
+        }
+        let has_prereq = spec.is_update() && !spec.pre.is_empty();
 
         // genuine request + reply clause (with all reply flips) at offset 0 and +-(fudge-1)
-        check_reply(&mut rep, &mut w, req_kind, &unsigned, key_idx, time, time, true);
-        check_reply(&mut rep, &mut w, req_kind, &unsigned, key_idx, time, time + FUDGE - 1, false);
-        check_reply(&mut rep, &mut w, req_kind, &unsigned, key_idx, time, time - (FUDGE - 1), false);
+        let rc_a = check_reply(&mut rep, &mut cache, &mut w, &unsigned, key_idx, time, time, true);
+        check_reply(&mut rep, &mut cache, &mut w, &unsigned, key_idx, time, time + FUDGE - 1, false);
+        check_reply(&mut rep, &mut cache, &mut w, &unsigned, key_idx, time, time - (FUDGE - 1), false);
 
-        let Ok((signed, _)) = client_sign(&unsigned, &key, time) else { continue };
+        let Ok((signed, _)) = sign_base(&unsigned, &key, time) else { continue };
+        // the differential of the leak clause is only meaningful if the AUTHENTIC request tells the
+        // two servers apart
+        if let Some(b) = wb.as_mut() {
+            let ob = observe(b, &signed, time);
+            rep.eval();
+            if let Some(p) = &ob.panic {
+                rep.violation("panic", &format!("{}:genuine", p.site()), case_json(&w, Some(b), "request", req_kind, &unsigned, key_idx, time, &signed, time, "genuine@twin"), json!("no panic"), json!({"message": p.message, "location": p.location}));
+            }
+            if rc_a.is_some() && ob.rcode.is_some() && rc_a != ob.rcode {
+                rep.count("leak/pairs-distinguished-by-valid-request");
+            } else if spec.flags & F_Z != 0 {
+                rep.count("leak/pairs-not-distinguished/z-request-refused");
+            } else {
+                rep.count("leak/pairs-not-distinguished");
+            }
+        }
         let u2 = unsigned.clone();
-        let mk = move |w: &World, b: &[u8], now: u64, class: &str| case_json(w, "request", req_kind, &u2, key_idx, time, b, now, class);
+        let mk = move |w: &World, wb: Option<&World>, b: &[u8], now: u64, class: &str| case_json(w, wb, "request", req_kind, &u2, key_idx, time, b, now, class);
         let mut ck = Checker { rep: &mut rep };
         // clock offsets on the genuine request and on one flipped-MAC variant
         for off in [0i64, 299, -299, 300, -300, 301, -301, 600, -600, 1 << 32, -(1 << 31)] {
             let now = (time as i64 + off).max(0) as u64;
-            ck.judge_request(&mut w, &Mutant { class: format!("clock-offset@{off:+}"), bytes: signed.clone() }, &signed, now, &mk);
+            ck.judge_request(&mut w, wb.as_mut(), &Mutant { class: format!("clock-offset@{off:+}"), bytes: signed.clone() }, &signed, now, has_prereq, &mk);
         }
         // all mutation classes at the signing time
         let ms = mutants(&mut r, &signed, &keys, &key, time, &unsigned, ctx.is_thorough());
         for m in &ms {
-            ck.judge_request(&mut w, m, &signed, time, &mk);
+            ck.judge_request(&mut w, wb.as_mut(), m, &signed, time, has_prereq, &mk);
         }
         // a sample of mutants at a stale clock: must stay ineffective
         for _ in 0..24 {
             let m = r.pick(&ms).clone();
-            ck.judge_request(&mut w, &m, &signed, time + 2 * FUDGE, &mk);
+            ck.judge_request(&mut w, wb.as_mut(), &m, &signed, time + 2 * FUDGE, has_prereq, &mk);
         }
         w.env.cleanup();
+        if let Some(b) = &wb {
+            b.env.cleanup();
+        }
     }
     let _ = std::fs::remove_dir_all(&root);
     std::process::exit(rep.finish().min(0));
